@@ -115,8 +115,21 @@ def generate(template_path, repo):
             src_cache[rel] = extract.Source(p)
         return src_cache[rel]
 
-    with open(template_path) as fh:
-        tl = fh.read().split('\n')
+    def load(path, depth=0):
+        out = []
+        with open(path) as fh:
+            for l in fh.read().split('\n'):
+                if l.strip().startswith('//@include'):
+                    rel = l.strip().split(None, 1)[1].strip()
+                    g.includes.append(rel)
+                    out.append('// ---- include %s ----' % rel)
+                    if depth > 4:
+                        raise AnchorLost('include depth')
+                    out += load(os.path.join(VERUS_DIR, rel), depth + 1)
+                else:
+                    out.append(l)
+        return out
+    tl = load(template_path)
     i = 0
     while i < len(tl):
         line = tl[i]
